@@ -68,8 +68,9 @@ const namesDeclsUse = "func samePoint(a, b *Point) bool { return deriveEqual(a, 
 	"func h(p *Point) uint64 { return deriveHashPoint(p) ^ deriveHash(p.Tags) }\n"
 const namesDeclsMain = "package main\n\n" + namesPoint + namesDeclsUse + "\nfunc main() {}\n"
 
-func namesList() []layout {
+func namesList(quick bool) []layout {
 	var ls []layout
+	onlyDone := map[string]bool{}
 	var several = map[string]string{"main.go": namesMain}
 	plugins := []string{"Equal", "Compare", "Hash", "Clone", "GoString", "DeepCopy"}
 	k := 0
@@ -83,11 +84,16 @@ func namesList() []layout {
 		} else {
 			ls = append(ls, layout{name: "calls-in-" + n.file, args: []string{"."}, dirs: []string{"."},
 				files: map[string]string{"main.go": namesMain, n.file: callsText}})
-			// the named file is the only file with derive calls
-			ls = append(ls, layout{name: "only-calls-in-" + n.file, args: []string{"."}, dirs: []string{"."},
-				files: map[string]string{"main.go": "package main\n\ntype Point struct {\n\tX, Y int\n\tTags []string\n}\n\nfunc main() {}\n", n.file: callsText}})
+			// the named file is the only file with derive calls (quick tier: one name per class)
+			if !quick || !onlyDone[n.class] {
+				onlyDone[n.class] = true
+				ls = append(ls, layout{name: "only-calls-in-" + n.file, args: []string{"."}, dirs: []string{"."},
+					files: map[string]string{"main.go": "package main\n\ntype Point struct {\n\tX, Y int\n\tTags []string\n}\n\nfunc main() {}\n", n.file: callsText}})
+			}
 		}
-		if n.class == "test" {
+		if quick && n.class == "near" {
+			// no declarations role for the near misses
+		} else if n.class == "test" {
 			// functions declared in a test file can only be called from test files
 			ls = append(ls, layout{name: "user-functions-with-plugin-prefixes-declared-in-" + n.file, args: []string{"."}, dirs: []string{"."},
 				files: map[string]string{"main.go": "package main\n\n" + namesPoint + "func main() {}\n",
@@ -126,5 +132,5 @@ func namesList() []layout {
 }
 
 func names(cfg hx.Config, meta *hx.Meta) {
-	runLayouts(cfg, meta, "names", "c01-file-names", namesList())
+	runLayouts(cfg, meta, "names", "c01-file-names", namesList(cfg.Tier != "thorough"))
 }
